@@ -706,6 +706,7 @@ func checkBounds(res *Result) {
 	args := []string{"build", "-gcflags=" + modPath + "/pub=-d=ssa/check_bce/debug=1", "-gcflags=" + modPath + "/streams/values/...=-d=ssa/check_bce/debug=1"}
 	// newly extracted helpers are judged where they are called: the compiler is shown the sources
 	// with those helpers expanded in place (E0), through -overlay
+	usesOverlay := false
 	if ov := compilerOverlay(); len(ov) > 0 {
 		rep := map[string]string{}
 		i := 0
@@ -721,16 +722,22 @@ func checkBounds(res *Result) {
 			of := filepath.Join(cache, "overlay.json")
 			if os.WriteFile(of, js, 0644) == nil {
 				args = append(args, "-overlay="+of)
+				usesOverlay = true
 			}
 		}
 	}
 	args = append(args, pkgs...)
 	cmd := exec.Command("go", args...)
 	cmd.Dir = repoDir
-	cmd.Env = append(loadEnv(), "GOFLAGS=-mod=mod") // no -trimpath: the report must name real file paths; the shared build cache replays the diagnostics of cached compilations
+	// -trimpath: positions are printed relative to the module path (mapped back below), and the
+	// compilations are keyed by content, not by directory — the shared build cache replays the
+	// diagnostics of a cached compilation, and scratch copies of the tree do not each add their own
+	// copy of every package to the cache
+	cmd.Env = append(loadEnv(), "GOFLAGS=-mod=mod -trimpath")
+	_ = usesOverlay
 	out, err := cmd.CombinedOutput()
 	if err != nil && !strings.Contains(string(out), "Found Is") {
-		res.undecided("C11-R2", "go build", "-", "the compiler's bounds report could be produced", fmt.Sprintf("%v: %s", err, firstLine(string(out))))
+		res.undecided("C11-R2", "go build", "-", "the compiler's bounds report could be produced", fmt.Sprintf("%v: %s", err, strings.Join(strings.SplitN(string(out), "\n", 4)[:min(3, len(strings.SplitN(string(out), "\n", 4)))], " | ")))
 		return
 	}
 	type site struct {
@@ -745,6 +752,7 @@ func checkBounds(res *Result) {
 			continue
 		}
 		f := m[1]
+		f = strings.TrimPrefix(f, modPath+"/")
 		if !filepath.IsAbs(f) {
 			f = filepath.Join(repoDir, f)
 		}
